@@ -131,6 +131,21 @@ def run(tier):
         args = gitskin.RS_ARGS + ["--line-numbers"]
         return (core.run_delta(args + ["--hyperlinks"], data, binary="/bin/sh", prefix_args=pre),
                 core.run_delta(args, data, binary="/bin/sh", prefix_args=pre))
+    # blame output: commit hashes shorter than their column (git blame --abbrev=6), wider columns in the format
+    def blame_one(j):
+        r2 = random.Random(core.seed() * 4243 + j)
+        n = [7, 8, 12, 40][j % 4]
+        lines = []
+        for i in range(r2.randint(2, 6)):
+            hx = "".join(r2.choice("0123456789abcdef") for _ in range(n - 1)) + r2.choice("abcdef")
+            if i % 3 == 2:
+                hx = "".join(r2.choice("0123456789") for _ in range(n))       # digits only
+            lines.append(f"{hx} (Author N{i % 2}      2021-08-22 18:20:19 -0700 {120 + i})     let v{i} = {i};")
+        data = ("\n".join(lines) + "\n").encode()
+        args = ["--no-gitconfig", "--width", "120"] + ([] if j % 3 else ["--blame-format", "{timestamp:<15} {author:<15.14} {commit:<10}"])
+        extra = ["--hyperlinks", "--hyperlinks-commit-link-format", CTEMPLATES[j % len(CTEMPLATES)][0]]
+        return core.run_delta(args + extra, data), core.run_delta(args, data)
+    blame_res = core.pmap(blame_one, range(24 if tier == "quick" else 240))
     gone_hists = [h for h in hists if any(l["c"] in ("plus", "zero") for l in h)][:40 if tier == "quick" else 400]
     gone_res = core.pmap(gone_one, gone_hists)
     root = os.path.join(core.scratch(), "cwd")
@@ -156,6 +171,15 @@ def run(tier):
                     for shown, real in untransform.items():
                         hhpath = hhpath.replace(shown, real)
                 hhline = "".join(g for g, kd, wd, c in cells if kd == "hhLine")
+                # the file a hunk belongs to, from the input (not from what the row displays): the hunk header carries the
+                # fragment token of its input line; its section's "diff" line names the file (the new one of a rename)
+                true_fid = None
+                if p["t"] == "hunkHdr" and p.get("frag"):
+                    kk = p["frag"] - (5 if insub == 2 else 0)
+                    for l in reversed(h[:max(0, kk)]):
+                        if l["c"] == "diff":
+                            true_fid = l["g"] if l["kd"] in ("rename", "renmod", "copy", "renmode", "binx", "renbin") else l["f"]
+                            break
                 lks = []
                 for text, url in link_spans(rb):
                     t = text.strip()
@@ -177,11 +201,14 @@ def run(tier):
                     # (a diffstat line names its own path, which need not be one of the diff's files)
                     fid = (next((f for f, nm in names.items() if os.path.basename(t) == nm), None)
                            if kind == "path" and p["t"] in ("fileHdr", "hunkHdr") else None)
+                    if kind == "path" and p["t"] == "hunkHdr" and true_fid:
+                        fid = true_fid
                     lks.append({"text": t, "url": url, "kind": kind, "line": line,
                                 "abs": (os.path.normpath(os.path.join(root, names[fid])) if fid
                                         else os.path.normpath(os.path.join(base, t))) if kind == "path" else ""})
                 k = p["t"] if p["t"] in ("fileHdr", "hunkHdr", "commit") else ("code" if p["t"] in ("minus", "plus", "zero") else "other")
-                rows.append({"k": k, "abs": os.path.normpath(os.path.join(base, hhpath)) if hhpath else "", "links": lks})
+                rows.append({"k": k, "abs": (os.path.normpath(os.path.join(root, names[true_fid])) if true_fid else
+                                             os.path.normpath(os.path.join(base, hhpath)) if hhpath else ""), "links": lks})
             links.append({"run": i, "parts": TEMPLATES[tname][1], "cparts": CTEMPLATES[ct][1], "cwd": root, "host": host, "rows": rows})
     n_main = len(jobs)
     for j, (w, wo) in enumerate(gone_res):
@@ -190,6 +217,14 @@ def run(tier):
             continue
         rel.append({"run": n_main + j, "kind": "equal", "x": [intern(b) for b in lexer.strip_osc8(w.out).split(b"\n")],
                     "y": [intern(x) for x in wo.out.split(b"\n")], "z": [], "ex": []})
+    n_gone = len(gone_res)
+    for j, (w, wo) in enumerate(blame_res):
+        if w.code != 0 or wo.code != 0:
+            V.violation("exit:blame", f"delta exited {w.code}/{wo.code} on blame input with hyperlinks", {"run": w.to_json()})
+            continue
+        rel.append({"run": n_main + n_gone + j, "kind": "equal", "x": [intern(b) for b in lexer.strip_osc8(w.out).split(b"\n")],
+                    "y": [intern(x) for x in wo.out.split(b"\n")], "z": [], "ex": []})
+        term.extend(termev.row_events(n_main + n_gone + j, w.out))
     f_rel, r1 = tlc.validate_trace("Trace_Rel", rel)
     n = max(1, min(6, len(term) // 20000 + 1))
     outs = core.pmap(lambda ch: tlc.validate_trace("Trace_Term", ch, heap="3g"), [term[i::n] for i in range(n)], jobs=n)
@@ -201,6 +236,12 @@ def run(tier):
     if nlinks < 50:
         raise core.ToolError("hardly any hyperlink was observed: the check would be vacuous")
     for f in f_rel:
+        if f["run"] >= n_main + n_gone:
+            j = f["run"] - n_main - n_gone
+            V.violation(f"transparent:blame:{j % 4}:{j % 3 == 0}", "blame input: the output with OSC 8 sequences removed differs from the run without "
+                        f"--hyperlinks at row {f['at']} (hash length {[7, 8, 12, 40][j % 4]}, {'wider commit column' if j % 3 == 0 else 'default format'})",
+                        {"run": blame_res[j][0].to_json()})
+            continue
         if f["run"] >= n_main:
             h = gone_hists[f["run"] - n_main]
             V.violation(f"transparent:cwd-gone:{stream.shape(h)[:200]}", "started in a deleted directory, the output with OSC 8 sequences removed "
@@ -213,6 +254,9 @@ def run(tier):
                     {"history": h, "mode": mode, "run": res[f["run"]][0].to_json()})
     seen = set()
     for f in f_term:
+        if f["run"] >= n_main:
+            V.violation(f"term:{f['why']}:blame", f"row {f['row']} of a blame rendering with hyperlinks: {f['why']}", {"run": blame_res[f["run"] - n_main - n_gone][0].to_json()})
+            continue
         h, mode, tname, insub, ct = jobs[f["run"]]
         if (f["why"], mode) in seen:
             continue
